@@ -72,6 +72,12 @@ CHECKS = {
  "C18": ("deterministic simulation: seeded histories of add_rule / startTestRun / stopTestRun / status on one StreamResultRouter, events optionally sent through an upstream StreamToQueue whose queue is drained into the router; 10-line routing function as model",
          "seeded exploration: every event lands in exactly the sink the model names (or raises and lands nowhere), other fields unchanged, consuming rules strip exactly one segment (push/pop inverse), start/stop reach exactly the registered sinks once per run and immediately for rules added mid-run",
          "one rule per prefix/test id (ambiguous rules are documented as undefined); sampling, not proof", "3/C18"),
+ "C04": ("deterministic simulation of the reporting pipeline and of test dispatch: scripted histories through seeded adapter stacks over TestResult/TextTestResult, real unittest.TestSuite runs of scripted TestCases/PlaceHolders with failfast set before/after wrapping and stop() injected from inside a test, and testtools.run executed in-process; virtual clock; one-boolean verdict model",
+         "seeded exploration: wasSuccessful() on every testtools-owned layer equals 'no bad outcome since startTestRun' after every call, TextTestResult's count/verdict/failure total/sections and testtools.run's exit status agree, with failfast no test is dispatched after the first bad outcome and all before it are, stop() on any layer is visible through every layer above the stopped results",
+         "failfast clauses only for runs of real TestCases/PlaceHolders; single reporter thread; sampling, not proof", "3/C04"),
+ "C09": ("deterministic simulation of the conversion pipeline: scripted reporter -> ExtendedToStreamDecorator -> (recording tap) -> StreamToExtendedDecorator -> recording target, virtual clock for unsupplied times, seeded detail payloads (chunking, empty chunks, content types with parameters)",
+         "seeded exploration: the tap stream is well formed (inprogress, file events in chunk order, eof exactly on each detail's last chunk, one final status) and the final target sees one bracket per test with the same id, outcome, tags, times, skip reason and every non-empty detail (bytes and ContentType)",
+         "content-type parameters from the safe MIME domain only; all-empty details need not survive; sampling, not proof", "3/C09"),
 }
 
 NOT_APPLICABLE = [
